@@ -323,7 +323,7 @@ func c10(ctx *Ctx) {
 			switch {
 			case strings.HasPrefix(msg, "ERROR") && sc.Axes["unsat"] == "true":
 				return
-			case (strings.Contains(msg, "RUNAWAY") || msg == "HANG" || strings.Contains(msg, "stack overflow")) && sc.Axes["leaf"] == "self/two-anyOf-item-edges" && ctx.Run.Listed("TWO_RECURSIVE_ANYOF_ITEM_EDGES_NO_TERMINATION"):
+			case (strings.Contains(msg, "RUNAWAY") || msg == "HANG" || strings.Contains(msg, "stack overflow") || strings.HasPrefix(msg, "CRASH")) && c10NonTerminating(sc.Axes["leaf"]) && ctx.Run.Listed("TWO_RECURSIVE_ANYOF_ITEM_EDGES_NO_TERMINATION"):
 				ctx.Run.Known("TWO_RECURSIVE_ANYOF_ITEM_EDGES_NO_TERMINATION", sc.ID+": "+lastLine(msg), replay)
 			case strings.HasPrefix(msg, "PANIC") && sc.Axes["leaf"] == "root-self-ref" && ctx.Run.Listed("ROOT_SELF_REF_PANICS"):
 				ctx.Run.Known("ROOT_SELF_REF_PANICS", sc.ID+": "+firstLine(msg), replay)
@@ -450,6 +450,12 @@ func c10OneType(ctx *Ctx, sc *SCase, p *batch.Program, defs []string) {
 	}
 }
 
+// c10NonTerminating names the recursion shapes on which the generator is known not to terminate (KF-C10-8): both come from the order in
+// which generateAnyOfType removes its cycle marks.
+func c10NonTerminating(leaf string) bool {
+	return leaf == "self/two-anyOf-item-edges" || leaf == "self/typed-definition-with-own-anyOf"
+}
+
 func c10CasesB(level int) []SCase {
 	var out []SCase
 	str, in := J{"type": "string"}, J{"type": "integer", "minimum": 0}
@@ -476,6 +482,8 @@ func c10CasesB(level int) []SCase {
 	// two array properties of one definition, each with items that are an anyOf back to the definition
 	leafObj := J{"type": "object", "properties": J{"s": str}, "required": A{"s"}}
 	add("self/two-anyOf-item-edges", false, J{"t": ref("T")}, J{"T": J{"type": "object", "properties": J{"l": J{"type": "array", "items": J{"anyOf": A{ref("T"), leafObj}}}, "r": J{"type": "array", "items": J{"anyOf": A{ref("T"), leafObj}}}}}})
+	// a typed definition whose own anyOf list refers back to it
+	add("self/typed-definition-with-own-anyOf", false, J{"t": ref("T"), "x": J{"type": "boolean"}}, J{"T": J{"type": "object", "anyOf": A{ref("T"), leafObj}}})
 	add("root-self-ref", false, J{"v": in, "again": J{"$ref": "#"}}, J{})
 	if level >= 1 {
 		add("self/two-edges", false, J{"t": ref("T")}, J{"T": J{"type": "object", "properties": J{"l": ref("T"), "r": ref("T"), "v": in}}})
